@@ -62,12 +62,38 @@ func c09r7(c *Ctx) {
 			continue
 		}
 		recv := sig.Recv()
+		// the list and the locals computed from it (a copy bound to a helper's parameter)
+		derived := map[types.Object]bool{roots: true}
+		mentionsDerived := func(e ast.Expr) bool {
+			for o := range derived {
+				if f.MentionsObj(e, false, o) {
+					return true
+				}
+			}
+			return false
+		}
+		for changed := true; changed; {
+			changed = false
+			for _, w := range f.WritesIn(f.Body, false) {
+				if w.RHS == nil || !mentionsDerived(w.RHS) {
+					continue
+				}
+				if id, isID := ast.Unparen(w.LHS).(*ast.Ident); isID {
+					if o, isVar := f.ObjOf(id).(*types.Var); isVar && !o.IsField() && !derived[o] {
+						if _, isSlice := o.Type().Underlying().(*types.Slice); isSlice {
+							derived[o] = true
+							changed = true
+						}
+					}
+				}
+			}
+		}
 		stores := func(nd *cfgx.Node) bool {
 			if nd.AST == nil {
 				return false
 			}
 			for _, w := range f.WritesIn(nd.AST, false) {
-				if w.RHS == nil || !f.MentionsObj(w.RHS, false, roots) {
+				if w.RHS == nil || !mentionsDerived(w.RHS) {
 					continue
 				}
 				// into the receiver's state (a table entry or a field)
